@@ -110,10 +110,10 @@ def encode_field(c, value, enc):
         if isinstance(body, bytes):
             return body[:width]
         return body[:width].ljust(width, ' ').encode(enc)
-    n = len(body)
-    if n >= 10 ** w:
-        raise Unrepresentable('%d characters cannot be counted by a %d digit prefix' % (n, w))
     raw = body if isinstance(body, bytes) else body.encode(enc)
+    n = len(raw)            # "a decimal count followed by exactly that many bytes" (same as characters for single-byte codecs)
+    if n >= 10 ** w:
+        raise Unrepresentable('%d bytes cannot be counted by a %d digit prefix' % (n, w))
     return ('%0*d' % (w, n)).encode(enc) + raw
 
 
